@@ -205,6 +205,8 @@ def eval_case(case):
                 got_all.append(got)
             outcome = got_all
             nontrivial = size > 1 and len(case["loops"]) > 1
+        elif kind == "protocol":
+            return eval_protocol(case)
         elif kind == "reduce":
             return eval_reduce(case)
         else:
@@ -212,6 +214,125 @@ def eval_case(case):
     finally:
         restore_serial()
     return {"nontrivial": nontrivial, "outcome": outcome, "violations": viol}
+
+
+class LockComm(FakeComm):
+    """Collectives resolved at once: the harness executes one protocol step on all ranks
+    before the next one, so the sum over ranks is known when a rank calls Allreduce."""
+
+    def __init__(self, size, rank):
+        FakeComm.__init__(self, size, rank)
+        self.next_sum = None
+        self.nred = 0
+
+    def _red(self, A, B):
+        self.nred += 1
+        B[...] = self.next_sum
+
+
+def eval_protocol(case):
+    """HISTORY of region calls on long-lived per-rank configurations.  Word over
+    S (start_parallel_region), C (close_parallel_region), L (block_distributed_range(0,5)),
+    A (block_distributed_array of 5 items), R (allreduce of a rank-specific array).
+    Reference model: level = number of open regions; work is shared and reduced iff
+    level == 1, otherwise every rank gets the whole range and allreduce leaves the
+    array alone (the documented nesting rule of start_parallel_region)."""
+    from quantarhei.core import parallel as P
+    from quantarhei.core.managers import Manager
+    size, word = case["size"], case["word"]
+    viol = []
+
+    def v(key, msg):
+        if key not in [x[0] for x in viol]:
+            viol.append((key, msg, None))
+
+    cfgs = []
+    for rank in range(size):
+        dc = make_config(size, rank)
+        dc.comm = LockComm(size, rank)
+        cfgs.append(dc)
+    level = maxlevel = 0
+    trace = []
+    for idx, op in enumerate(word):
+        pre = word[:idx]
+        if op in "SC":
+            level += 1 if op == "S" else -1
+            maxlevel = max(maxlevel, level)
+            for rank in range(size):
+                Manager().parallel_conf = cfgs[rank]
+                (P.start_parallel_region if op == "S" else P.close_parallel_region)()
+            for rank in range(size):
+                if cfgs[rank].parallel_level != level or cfgs[rank].parallel_region != level:
+                    v("protocol/region-counters/after-%s-at-depth-%d" % (op, level),
+                      "after %r: rank %d has parallel_level=%d parallel_region=%d, %d regions "
+                      "are open" % (word[:idx + 1], rank, cfgs[rank].parallel_level,
+                                    cfgs[rank].parallel_region, level))
+            trace.append(level)
+        elif op in "LA":
+            got = []
+            for rank in range(size):
+                Manager().parallel_conf = cfgs[rank]
+                if op == "L":
+                    got.append([int(x) for x in P.block_distributed_range(0, 5)])
+                else:
+                    got.append([int(x) for x in
+                                P.block_distributed_array(numpy.arange(5))])
+            whole = list(range(5))
+            if level == 1:
+                for b in partition.check_lists(got, whole):
+                    v("protocol/shared-loop-at-level-1/%s/%s"
+                      % ("after-nested-region" if maxlevel > 1 else
+                         "reopened-region" if pre.count("S") > 1 else "first-region", b),
+                      "after %r (one region open) the loop is split as %s: %s" % (pre, got, b))
+            else:
+                if any(g != whole for g in got):
+                    v("protocol/loop-outside-level-1/level=%d" % level,
+                      "after %r (%d regions open) every process must run the whole loop, got %s"
+                      % (pre, level, got))
+            trace.append(got)
+        elif op == "R":
+            arrs = [numpy.array([[rank + 1.0, 1.0], [0.5 * rank, -2.0]]) for rank in range(size)]
+            tot = sum(arrs[1:], arrs[0].copy())
+            outs = []
+            for rank in range(size):
+                Manager().parallel_conf = cfgs[rank]
+                cfgs[rank].comm.next_sum = tot
+                a = arrs[rank].copy()
+                P.distributed_configuration().allreduce(a)
+                outs.append(a)
+            for rank in range(size):
+                exp = tot if level == 1 else arrs[rank]
+                if not numpy.array_equal(outs[rank], exp):
+                    v("protocol/allreduce/%s" % ("not-summed-at-level-1" if level == 1
+                                                  else "changed-outside-level-1"),
+                      "after %r (%d regions open) rank %d holds %s after allreduce, expected %s"
+                      % (pre, level, rank, outs[rank].tolist(), exp.tolist()))
+            trace.append([o.tolist() for o in outs])
+    return {"nontrivial": size > 1 and "S" in word and any(c in word for c in "LAR"),
+            "outcome": trace, "violations": viol}
+
+
+def protocol_words(depth, maxlevel=3):
+    """all words over S C L A R up to the depth that respect the protocol (close only an
+    open region, loops and reductions only inside a region), prefix-maximal ones only."""
+    out = []
+
+    def rec(w, level):
+        if len(w) == depth:
+            out.append(w)
+            return
+        for op in "SCLAR":
+            if op == "S" and level >= maxlevel:
+                continue
+            if op == "C" and level == 0:
+                continue
+            if op in "LAR" and level == 0:
+                continue                        # the library refuses work outside a region
+            if op in "LAR" and w and w[-1] == op:
+                continue                        # immediate repetition adds nothing
+            rec(w + op, level + (1 if op == "S" else -1 if op == "C" else 0))
+    rec("", 0)
+    return out
 
 
 def _build(case):
@@ -235,6 +356,23 @@ def _target(case, ham, sbi):
         return rt.data
     if what == "rates":
         return RedfieldRateMatrix(ham, sbi).data
+    if what == "ops_raw":
+        # the operator representation itself: the stored K_m, Lambda_m and Lambda_m^+ are
+        # the result every rank keeps (no tensor is built from them)
+        rt = RedfieldRelaxationTensor(ham, sbi, as_operators=True)
+        return numpy.concatenate([numpy.asarray(rt.Km, dtype=complex).ravel(),
+                                  numpy.asarray(rt.Lm, dtype=complex).ravel(),
+                                  numpy.asarray(rt.Ld, dtype=complex).ravel()])
+    if what == "ops_apply":
+        from quantarhei.qm import ReducedDensityMatrix
+        rt = RedfieldRelaxationTensor(ham, sbi, as_operators=True)
+        d = ham.dim
+        r = numpy.array([[(1.0 + i + 2 * j) / (3.0 + i * j) + 1j * (i - j) / 5.0
+                          for j in range(d)] for i in range(d)])
+        r = r + r.conj().T
+        with isolation.quiet():
+            out = rt.apply(ReducedDensityMatrix(data=r))
+        return numpy.array(out.data, dtype=complex)
     raise isolation.HarnessError(what)
 
 
@@ -324,12 +462,16 @@ def cases(tier):
                 cs.append({"kind": "seq", "size": size,
                            "loops": [["range", l1[0], l1[1]], ["list", l2[0], l2[1]],
                                      ["range", l3[0], l3[1]]]})
-    for target in ("tensor", "tensor_ops", "rates"):
+    for size in range(2, (3 if tier == "quick" else 5) + 1):
+        for w in protocol_words(6 if tier == "quick" else 8):
+            cs.append({"kind": "protocol", "size": size, "word": w})
+    TARGETS = ("tensor", "tensor_ops", "rates", "ops_raw", "ops_apply")
+    for target in TARGETS:
         for nsites in (2, 3):
             for size in range(2, 4):
                 cs.append({"kind": "reduce", "target": target, "nsites": nsites, "size": size,
                            "nt": 100, "nested": True})
-    for target in ("tensor", "tensor_ops", "rates"):
+    for target in TARGETS:
         for nsites in ((2, 3) if tier == "quick" else (2, 3, 4, 5)):
             for size in range(1, (4 if tier == "quick" else 7) + 1):
                 cs.append({"kind": "reduce", "target": target, "nsites": nsites,
